@@ -213,7 +213,7 @@ SCENARIOS = [
     dict(prop="C11", name="D96 git binary section followed by a plain section", tag="git.binary-then-plain", tree={b"f": b"a\nb\nc\n", b"bin": b"x"}, argv=[b"-f", b"-i", b"p.diff"],
          patch=b"diff --git a/bin b/bin\nindex 1234567..89abcde 100644\nGIT binary patch\nliteral 4\nLc${NkU|;|M00aO5\n\nliteral 3\nKc${NkU}69V0ssI2\n\n--- f\n+++ f\n@@ -1,3 +1,3 @@\n a\n-b\n+B\n c\n",
          expect=lambda r: _exp(r.exit == 1 and files(r).get(b"f") == b"a\nB\nc\n", f"the plain section after a binary one is not applied (exit {r.exit})")),
-    dict(prop="C03", name="D99 last context line beyond the end of the file", tag="locator.fuzz-overhang-eof", tree={b"f": b"a\nb\nc\nd\n"}, argv=[b"--no-backup-if-mismatch", b"-i", b"p.diff"],
+    dict(prop="C03", name="D99 last context line beyond the end of the file", tree={b"f": b"a\nb\nc\nd\n"}, argv=[b"--no-backup-if-mismatch", b"-i", b"p.diff"],
          patch=b"--- f\n+++ f\n@@ -2,4 +2,4 @@\n b\n-c\n+C\n d\n e\n",
          expect=lambda r: _exp(r.exit == 0 and files(r).get(b"f") == b"a\nb\nC\nd\n", f"a hunk which fits once its last context line is ignored (fuzz 1) is rejected because that line would lie beyond the end of the file (exit {r.exit})")),
     dict(prop="C06", name="D100 git rename with an edit applied a second time with -t", tag="reapply.rename-keeps-new-name", tree={b"n": b"l1\nl2\nL3\nl4\nl5\n"}, argv=[b"-t", b"-p1", b"-i", b"p.diff"],
